@@ -342,7 +342,14 @@ def r4(F, R):
                 if rounds:
                     budget = (c, t, rounds[0], other)
     if budget is None:
-        R.bad("C18-R4", b.path + ":budget", site, "computation of the number of base steps (round + max) not found")
+        clamps = [t for c in [b] + K.all_closures_of(F, b.path) for bb, t in c.calls()
+                  if t["callee"].get("name") == "clamp" and t["callee"].get("impl_self") == "f64" and
+                  any(x[0] == "call" and x[3].get("name") == "round" for x in vt_walk(c.value(t["args"][0])))]
+        if clamps:
+            R.bad("C18-R4", b.path + ":budget", "%s @%s" % (b.path, loc(clamps[0]["span"])), "the number of base steps is round(..).clamp(lo, hi): f64::clamp propagates NaN where "
+                  "`max(1.0)` yields 1, so `subsample_frequency = 0` with an infinite decoherence length (0 * inf) makes every draw fail instead of taking one step")
+        else:
+            R.bad("C18-R4", b.path + ":budget", site, "computation of the number of base steps (round + max) not found")
     else:
         c, t, rnd, other = budget
         arg = rnd[2][0]
@@ -551,6 +558,10 @@ def run(F, R, config=None):
     r3(F, R)
     r4(F, R)
     r5(F, R)
+    # a leapfrog result with a NaN energy error (NaN momentum after the ESH update) must not become the next state (C05-R2 analysis of the energy gate)
+    from . import c05
+    K.borrow_rule(R, lambda sub: c05.r2(F, sub), "C18-R6", "the leapfrog hands out LeapfrogResult::Ok only under an energy gate that a NaN or infinite energy error cannot pass "
+                  "(C05-R2 analysis): a state whose momentum left the unit sphere through a NaN density is rejected / retried, never accepted", only_rules={"C05-R2"})
     R.assume("the ESH closed form and its kinetic-energy change are numerical identities and not decided")
     R.assume("Math::array_normalize of a user-supplied Math divides by the Euclidean norm")
 
